@@ -1,4 +1,5 @@
 import Xp.Model.C05
+import Xp.Gen.C05Skel
 /-
 C05 model, claim side in full (claim/reconciler.go Reconcile with either syncer): which claim
 conditions one reconcile stores, given what the XR looked like when the reconcile started, what
@@ -181,5 +182,131 @@ def ctrace : CWorld → List CStep → List (Option (List Cond) × Bool)
   | w, s :: ss =>
     let r := cstep w s
     (r.1.claims[s.claim]?, r.2.isSome) :: ctrace r.1 ss
+
+/-! ### the deletion branch of the claim Reconcile (meta.WasDeleted(cm))
+
+A claim with a deletion timestamp: Ready := Deleting, the bound XR is deleted (background policy),
+the propagated connection secret is unpublished, the claim finalizer is removed, Synced :=
+ReconcileSuccess. As in the XR reconciler, RemoveFinalizer's Update answers with the stored claim,
+which replaces the claim held in memory, status included. -/
+
+inductive CDPhase where
+  | deleteXR | unpublish | removeFinalizer
+  deriving DecidableEq, Repr
+
+structure CDelCall where
+  /-- the first Get (of the claim) fails -/
+  getFails : Bool
+  paused : Bool
+  /-- the read of the XR fails with this class (NotFound = "does not exist") -/
+  xrGet : Option EC
+  fault : Option (CDPhase × EC)
+  lost : Bool
+  deriving Repr
+
+/-- a claim being deleted and its XR -/
+structure CDelWorld where
+  conds : List Cond
+  /-- the claim carries the claim finalizer / another one -/
+  fin : Bool
+  held : Bool
+  /-- the bound XR exists (a finalizer keeps it after its deletion was requested) -/
+  xr : Bool
+  deriving Repr
+
+/-- the read of the XR fails (NotFound is "does not exist", not a failure) -/
+def CDelCall.xrReadFails (c : CDelCall) (w : CDelWorld) : Bool :=
+  w.xr && (match c.xrGet with | some e => e != EC.notFound | none => false)
+
+/-- the XR is read and found -/
+def CDelCall.seesXR (c : CDelCall) (w : CDelWorld) : Bool := w.xr && c.xrGet.isNone
+
+/-- REGENERATED FROM THE SOURCE: does the claim `Reconcile` set Deleting a second time (after
+RemoveFinalizer)? In the tree as it is it does not. -/
+def claimReassertsDeleting : Bool := decide (Xp.Gen.c05SkelClaimReconcile.count "xpv1.Deleting" ≥ 2)
+
+/-- the end of the branch once the finalizer is (being) removed: with the finalizer present the
+Update replaces the claim in memory by the stored one - unless Deleting is set again (`re`) -/
+def claimDelDone (re : Bool) (w : CDelWorld) : List Cond :=
+  if w.fin && !re then setCond w.conds reconcileSuccess
+  else setCond (setCond w.conds deleting) reconcileSuccess
+
+/-- the claim conditions the deletion branch stores; none = no status write took effect.
+`re` = Deleting is set again after RemoveFinalizer (the code as it is: false). -/
+def claimDeleted (re : Bool) (w : CDelWorld) (c : CDelCall) : Option (List Cond) :=
+  if c.getFails || c.lost then none else
+  if c.paused then some (setCond w.conds reconcilePaused) else
+  if c.xrReadFails w then some (setCond w.conds reconcileError) else
+  let c1 := setCond w.conds deleting
+  match c.fault with
+  | some (.deleteXR, e) =>
+    -- Delete is issued only for an XR that was read; a NotFound answer is ignored
+    if c.seesXR w && e != EC.notFound then some (setCond c1 reconcileError) else some (claimDelDone re w)
+  | some (.unpublish, _) => some (setCond c1 reconcileError)
+  | some (.removeFinalizer, e) =>
+    -- no conflict test here: any class but the ignored NotFound is a ReconcileError; without the
+    -- finalizer no Update is issued
+    if !w.fin || e == EC.notFound then some (setCond c1 reconcileSuccess) else some (setCond c1 reconcileError)
+  | none => some (claimDelDone re w)
+
+/-- RemoveFinalizer's Update took effect -/
+def CDelCall.removes (c : CDelCall) (w : CDelWorld) : Bool :=
+  w.fin && !c.getFails && !c.paused && !c.xrReadFails w &&
+  (match c.fault with
+   | none => true
+   | some (.deleteXR, e) => !(c.seesXR w && e != EC.notFound)
+   | _ => false)
+
+/-- one reconcile: the claim afterwards (none = gone with its last finalizer) and whether the
+reconcile's status update took effect -/
+def cdelStep (re : Bool) (w : Option CDelWorld) (c : CDelCall) : Option CDelWorld × Bool :=
+  match w with
+  | none => (none, false)
+  | some w =>
+    if c.removes w then
+      if w.held then
+        (match claimDeleted re w c with
+         | some cs => (some { w with conds := cs, fin := false }, true)
+         | none => (some { w with fin := false }, false))
+      else (none, false)
+    else
+      match claimDeleted re w c with
+      | some cs => (some { w with conds := cs }, true)
+      | none => (some w, false)
+
+def cdelTrace (re : Bool) : Option CDelWorld → List CDelCall → List (Option (List Cond) × Bool)
+  | _, [] => []
+  | w, c :: cs =>
+    let r := cdelStep re w c
+    (r.1.map (·.conds), r.2) :: cdelTrace re r.1 cs
+
+/-! ### declared call skeleton of the claim `Reconciler.Reconcile`, condition-centred
+(`Xp.Gen.c05SkelClaimReconcile` is regenerated from the source; C06 ties its API calls) -/
+
+def skelClaimErrTail : List String := ["cm.SetConditions", "xpv1.ReconcileError", "client.Status.Update"]
+
+def skelClaimReconcile : List String :=
+  ["client.Get", "resource.IgnoreNotFound",                    -- CPoint.getClaim: nothing written
+   "meta.IsPaused", "cm.SetConditions", "xpv1.ReconcilePaused", "client.Status.Update",   -- CPath.paused
+   "client.Get", "resource.IgnoreNotFound"] ++ skelClaimErrTail ++                        -- CPoint.getXR: NotFound = "does not exist" (sees), else CPath.failed
+  ["meta.WasCreated", "cmp.Equal"] ++ skelClaimErrTail ++     -- ClaimCall.foreign: all four components of the reference
+  ["managedFields.Upgrade", "kerrors.IsConflict"] ++ skelClaimErrTail ++                   -- not modelled: the upgrader is the no-op one in both syncer set-ups of the harness
+  -- the deletion branch: claimDeleted (the foreground-deletion wait - "meta.WasDeleted"(xr), the first
+  -- status update - is not modelled: the claims of the harness use the background policy)
+  ["meta.WasDeleted", "cm.SetConditions", "xpv1.Deleting", "meta.WasCreated", "meta.WasDeleted", "client.Status.Update",
+   "client.Delete", "resource.IgnoreNotFound"] ++ skelClaimErrTail ++                      -- CDPhase.deleteXR (NotFound ignored)
+  ["claim.UnpublishConnection"] ++ skelClaimErrTail ++                                     -- CDPhase.unpublish
+  ["claim.RemoveFinalizer"] ++ skelClaimErrTail ++                                         -- CDPhase.removeFinalizer (no conflict test)
+  (if claimReassertsDeleting then ["cm.SetConditions", "xpv1.Deleting", "xpv1.ReconcileSuccess", "client.Status.Update"]
+   else ["cm.SetConditions", "xpv1.ReconcileSuccess", "client.Status.Update"]) ++
+  ["claim.AddFinalizer", "kerrors.IsConflict"] ++ skelClaimErrTail ++                      -- not modelled: the claims of the harness carry the finalizer (no call is issued)
+  ["composite.Sync", "kerrors.IsConflict"] ++ skelClaimErrTail ++                          -- CPoint.sync: syncFault / csaConflict => CPath.nothing | failed
+  ["cmp.Equal", "cmp.Equal",                                   -- the "bound" event only
+   "cm.SetConditions", "xpv1.ReconcileSuccess",                -- copied: setCond old reconcileSuccess
+   "xr.GetClaimConditionTypes", "xr.GetCondition", "cm.SetConditions",   -- copied: the foldl over v.claimTypes
+   "resource.IsConditionTrue", "xr.GetCondition",              -- claimPath: statusOf (decides xr).conds "Ready" = some "True"
+   "cm.SetConditions", "Waiting", "client.Status.Update",      -- CPath.waiting
+   "composite.PropagateConnection"] ++ skelClaimErrTail ++    -- CPoint.propagate: CPath.propagateFailed
+  ["cm.SetConditions", "xpv1.Available", "client.Status.Update"]   -- CPath.available; CPoint.status drops any of the updates
 
 end Xp.C05
